@@ -982,7 +982,11 @@ pub fn progress(trace: &[Value]) -> Vec<Value> {
                     || sp[1]["lack"].as_i64().unwrap_or(-1) >= 0
                     || sp[2]["lack"].as_i64().unwrap_or(-1) >= 0
                     || (sp[2]["keys"] == true && sp[1]["keys"] == false);
-                out.push(json!({"ev":"Step","kind":ev,"t":e["t"],"side":side_of(n),"st":st_name(&p["st"]),
+                // one of quinn's own controllers reporting less than two datagrams of window
+                let cc = cfgx[if n == 0 { "server" } else { "client" }]["cc"].as_str().unwrap_or("cubic");
+                let wlow = matches!(cc, "cubic" | "newreno" | "bbr") && p["st"].as_i64().unwrap_or(9) <= 1
+                    && path["cwnd"].as_i64().unwrap_or(1 << 40) < 2 * path["mtu"].as_i64().unwrap_or(0);
+                out.push(json!({"ev":"Step","kind":ev,"t":e["t"],"side":side_of(n),"st":st_name(&p["st"]),"wlow":wlow,
                     "ifae":path["ifae"],"ampb":ampb,"tm0":p["tm"][0],"tm6":p["tm"][6],"pcav":pcav,
                     "hsfl": sp[0]["nsent"].as_i64().unwrap_or(0) + sp[1]["nsent"].as_i64().unwrap_or(0)}));
             }
